@@ -64,6 +64,17 @@ func (u *uniq) array(d docGen, depth int) []interface{} {
 }
 
 func (u *uniq) doc(d docGen) interface{} {
+	if rn(20) == 19 {
+		// a wide array (thresholds such as 64 elements)
+		a := make([]interface{}, []int{17, 63, 64, 65, 70, 130}[rn(6)])
+		for i := range a {
+			a[i] = u.leaf(d)
+		}
+		if chance(50) {
+			return a
+		}
+		return map[string]interface{}{"list": a, "a": u.leaf(d)}
+	}
 	switch rn(4) {
 	case 0:
 		a := make([]interface{}, 1+rn(5))
@@ -314,6 +325,17 @@ func runC13() *RunResult {
 			}
 			byCont, byLeaf, _ := st.index()
 			hasFunc := len(p.Funcs) > 0
+			// for the path families with a reference model the locations come from the model,
+			// independently of what the library selects in either mode
+			var mlocs []mslot
+			if p.Model != nil {
+				mlocs = modelWalk(p.Model, st.real)
+				if len(mlocs) != len(ares) {
+					t.probe("selection-differs-from-model(not-judged:C01)")
+					return
+				}
+				t.probe("locations-from-the-reference-model")
+			}
 			for i, r := range ares {
 				a, ok := r.(jsonpath.Accessor)
 				if !ok {
@@ -321,7 +343,21 @@ func runC13() *RunResult {
 					return
 				}
 				loc := location{}
-				if !hasFunc {
+				if mlocs != nil {
+					ms := mlocs[i]
+					if ms.m != nil {
+						id, _ := contID(ms.m)
+						loc = location{ok: true, cont: id, cid: st.cids[id], key: ms.key, isMap: true}
+					} else {
+						id, _ := contID(ms.a)
+						loc = location{ok: true, cont: id, cid: st.cids[id], idx: ms.idx}
+					}
+					if a.Get != nil && canon(a.Get()) != canon(ms.val()) {
+						t.judged++
+						t.fail("C13:accessor-bound-to-another-location", p.Text, fmt.Sprintf("%v: result %d should stand for %v (value %s) but its Get() returns %s", o, i, loc, clip(canon(ms.val()), 100), clip(canon(a.Get()), 100)))
+						return
+					}
+				} else if !hasFunc {
 					loc = st.locate(pres[i], byCont, byLeaf)
 				}
 				if loc.ambiguous {
@@ -370,6 +406,8 @@ func runC13() *RunResult {
 		switch rn(8) {
 		case 0:
 			p = &PathSpec{Text: "$", Prefix: "$", SingleValued: true}
+		case 1, 2:
+			p = genModelPath(false)
 		default:
 			p = genPathFor(st.real, cfg.Funcs, false, 4, 1)
 		}
